@@ -188,11 +188,22 @@ class VariablesCollector(ValidationVisitor):
             )
 
     def _flatten_fragments(self):
-        for parent, children in self._fragment_fragments.items():
-            for child in deduplicate(children):
-                for op in self._op_fragments.keys():
-                    if parent in self._op_fragments[op]:
-                        self._op_fragments[op].append(child)
+        # Transitive closure of the fragments spread (directly or through
+        # other fragments) by each operation, independent of the order in
+        # which the fragments are defined in the document.
+        for op in list(self._op_fragments.keys()):
+            fragments = self._op_fragments[op]
+            seen = set(fragments)
+            pending = list(fragments)
+            while pending:
+                parent = pending.pop(0)
+                if parent not in self._fragment_fragments:
+                    continue
+                for child in deduplicate(self._fragment_fragments[parent]):
+                    if child not in seen:
+                        seen.add(child)
+                        fragments.append(child)
+                        pending.append(child)
 
     def leave_document(self, _):
         self._flatten_fragments()
